@@ -315,9 +315,41 @@ fn in_list_case(u: &mut Choices, tier: Tier) -> CaseResult {
                 items.push(v);
             }
         }
-        let member = items.iter().any(|v| v.ty() == a.ty() && compare(v, &a) == Cmp::Ordered(std::cmp::Ordering::Equal) || (v.ty() == a.ty() && matches!(compare(v, &a), Cmp::EqOnly(true))));
+        let mut member = items.iter().any(|v| v.ty() == a.ty() && compare(v, &a) == Cmp::Ordered(std::cmp::Ordering::Equal) || (v.ty() == a.ty() && matches!(compare(v, &a), Cmp::EqOnly(true))));
+        // a third of the lists also hold a range or a regular expression: `X in [v1..vn]` holds iff X
+        // equals some vi, and X equals a range / a pattern iff it lies within / matches
+        let mut lits: Vec<Lit> = items.iter().map(|v| Lit::V(v.clone())).collect();
+        if u.chance(1, 3) {
+            let extra = match &a {
+                V::Int(i) => {
+                    let (lo, hi) = if u.chance(1, 2) { (i.saturating_sub(2), i.saturating_add(2)) } else { (i.saturating_add(1), i.saturating_add(5)) };
+                    if lo < hi && *i > i64::MIN + 8 && *i < i64::MAX - 8 {
+                        if lo <= *i && *i <= hi {
+                            member = true;
+                        }
+                        Some(Lit::RangeI(lo, hi, true, true))
+                    } else {
+                        None
+                    }
+                }
+                V::Str(sv) if sv.is_ascii() && !sv.is_empty() && sv.chars().all(|c| c.is_ascii_alphanumeric()) => {
+                    if u.chance(1, 2) {
+                        member = true;
+                        Some(Lit::Regex(format!("^{}$", sv)))
+                    } else {
+                        Some(Lit::Regex("^zzz-no-match$".into()))
+                    }
+                }
+                _ => None,
+            };
+            if let Some(x) = extra {
+                let at = u.below(lits.len() + 1);
+                lits.insert(at, x);
+            }
+        }
+        let plain = lits.iter().all(|l| matches!(l, Lit::V(_)));
         for neg in [false, true] {
-            let c = cl_bin(q_key(&["x"]), BinOp::In, neg, Lit::V(V::List(items.clone())));
+            let c = cl_bin(q_key(&["x"]), BinOp::In, neg, if plain { Lit::V(V::List(items.clone())) } else { Lit::List(lits.clone()) });
             let want = if member != neg { St::Pass } else { St::Fail };
             exps.push(Expect { why: format!("x={} : `{}`", a.to_json(), clause_text(&c)), rule: rule1("c", Item::Clause(c)), want });
         }
